@@ -66,3 +66,7 @@ chk("C14", "E6-dkg", "exploration",
     "For every accepted (n,t) up to the stated n and every conflicting pair, every assignment of request sequences over the two duties to the real instances is run on a freshly DKG-generated account; no instance may release partial signatures for both duties and real threshold recovery over every t-subset must not succeed for both; both duties are also delivered concurrently to one instance under the cooperative scheduler.",
     "Trusted: BLS library; instances share no state on the signing path (checked); representative sequences above n=2 (quick) / n=3 (thorough).",
     "exhaustive assignment enumeration with real threshold-signature recovery + preemption-bounded schedule enumeration", "5/C14")
+chk("C20", "E2-dfs", "exploration",
+    "For every RPC of the client-facing services (authorised client) and the key-generation service (non-peer): the default message and every message with one field off default (two in thorough) over per-type boundary menus, each marshalled, decoded by the real protobuf library and handed to the real handler inside a worker process under a 16 GiB address-space limit, followed by a canary request; a worker death or hang is attributed to the announced case.",
+    "Trusted: the gRPC transport layer is not exercised; explicitly encoded zero-length bytes decode to nil in the pinned protobuf library (verified) so they equal 'absent'.",
+    "deviation-bounded exhaustive message enumeration against the real handlers with crash/hang detection in a worker process", "5/C20")
